@@ -1697,8 +1697,8 @@ def remove_velocity_sinex(sinex):
         header = header.replace(old_creation_time, creation_time)
         old_num_params = int(header[60:65])
         num_params = int(old_num_params / 2)
-        header = header.replace(str(old_num_params), str(num_params))
-        header = header.replace('V', '')
+        header = header[:60] + '{:05d}'.format(num_params) + header[65:]
+        header = header[:-1].rstrip()
         out.write(header)
         out.write("\n")
         del header
